@@ -303,7 +303,7 @@ type el struct {
 	arrows   string
 	foreign  bool // some reference to the element lies in another file (imported)
 	impValue bool // declared as `key: @file`
-	dotted   bool // declared as the last segment of a dotted key that carries both a label and a block: `a.b: L {...}`
+	dotted   bool // mentioned in a dotted key outside connections (`a.b: ...`, `a.b.style.fill: ...`) or through `_`
 	cells    map[string]string
 }
 
@@ -426,9 +426,21 @@ func stateOf(g *d2graph.Graph) *bstate {
 			if r.Key != nil && r.Key.Range.Path != "index.d2" {
 				x.foreign = true
 			}
-			if r.MapKey != nil && len(r.MapKey.Edges) == 0 && r.Key != nil && len(r.Key.Path) > 1 && r.KeyPathIndex == len(r.Key.Path)-1 &&
-				r.MapKey.Primary.Unbox() != nil && r.MapKey.Value.Map != nil {
-				x.dotted = true
+			if r.Key != nil {
+				segs := 0
+				for _, sb := range r.Key.Path {
+					v := sb.Unbox().ScalarString()
+					if _, reserved := d2ast.ReservedKeywords[strings.ToLower(v)]; reserved && sb.UnquotedString != nil {
+						break
+					}
+					if v == "_" && sb.UnquotedString != nil {
+						x.dotted = true
+					}
+					segs++
+				}
+				if segs > 1 && r.MapKey != nil && len(r.MapKey.Edges) == 0 {
+					x.dotted = true
+				}
 			}
 			if r.MapKey != nil && (r.MapKey.Value.Import != nil || r.MapKey.Primary.Unbox() != nil && r.MapKey.Value.Import != nil) {
 				x.impValue = true
@@ -622,7 +634,7 @@ type call struct {
 	tInherited bool // the target is defined by a board the addressed board starts from
 	tImpValue  bool // the target is declared as `key: @file`
 	dImpValue  bool // the destination container / a connection end is declared as `key: @file`
-	tDotted    bool // the target is declared as `a.b: label {...}`
+	tDotted    bool // the target or something below it is written with dotted keys (outside connections) or `_` references
 	srcHasNull bool // the source contains `key: null` statements (left by deletions of imported / inherited elements)
 }
 
@@ -640,8 +652,8 @@ func (c *call) ctxSuffix() string {
 		return "@imported-destination"
 	case c.srcHasNull:
 		return "@source-has-null"
-	case c.tDotted && (c.kind == opRename || c.kind == opMove):
-		return "@dotted-declaration"
+	case c.tDotted && (c.kind == opRename || c.kind == opMove || c.kind == opDeleteObj):
+		return "@dotted-keys"
 	case c.tInherited:
 		return "@inherited-target"
 	case c.bd != 0:
@@ -984,6 +996,9 @@ func (x *exec) setTarget(c *call, st *bstate, e *el) {
 	if !e.edge {
 		for _, m := range st.order {
 			o := st.els[m]
+			if !o.edge && o.dotted && st.under(m, e.m) {
+				c.tDotted = true
+			}
 			if o.foreign && (!o.edge && st.under(m, e.m) || o.edge && (st.under(o.src, e.m) || st.under(o.dst, e.m))) {
 				c.tForeign = true
 			}
